@@ -1,5 +1,91 @@
--- placeholder, theorems follow
-import Spec.Decode
+/-
+  C06 — a requested mask is used; the automatic mask minimises the ISO 7.8.3 penalty score.
+  Property theorems only; helper lemmas live in Proofs/Mask.lean.
+-/
+import Spec.Penalty
+import Model.Encoder
+import Proofs.Mask
+
 namespace Props.C06
-theorem placeholder : True := trivial
+
+set_option linter.unusedVariables false  -- `hb` hypotheses are part of the given statements but not needed
+
+/-- the data mask predicates translated from `get_data_mask_functions` (fn0 … fn7) are the ISO
+    Table 10 conditions, for every row i and column j -/
+theorem mask_conditions (p i j : Nat) (hp : p < 8) : Model.maskFn p i j = Spec.maskCond p i j := by
+  exact Proofs.Mask.maskFn_eq_maskCond p i j hp
+
+/-- Micro QR patterns 0..3 are QR patterns 1, 4, 6, 7; QR patterns are 0..7 in order -/
+theorem mask_order : Gen.maskOrderMicro = [1, 4, 6, 7] ∧ Gen.maskOrderQR = [0, 1, 2, 3, 4, 5, 6, 7] := by
+  exact Proofs.Mask.mask_order
+
+/-- square 0/1 matrix of size n -/
+def Square (m : Model.Matrix) : Prop := ∀ i, i < m.size → (m.getD i #[]).size = m.size
+
+/-- **score = ISO penalty** (QR): the model of `mask_scores` (N1 by run counting with the −2
+    encoding, N2 over every 2×2 window, N3 by the find-loop that resumes 4 modules after each
+    occurrence, N4 in exact integer arithmetic) equals the ISO 7.8.3.1 penalty of the specification
+    (every run ≥ 5, every 2×2 block, EVERY occurrence of 1011101 with four light modules — or the
+    symbol edge — on a side, 10 points per 5 % deviation) -/
+theorem score_eq_iso (m : Model.Matrix) (hs : Square m) (hb : ∀ i j, Model.get2 m i j ≤ 1) :
+    Model.evaluateMask m = Spec.penaltyQR m := by
+  exact Proofs.Mask.score_eq m hs
+
+/-- **score = ISO score** (Micro QR) -/
+theorem micro_score_eq_iso (m : Model.Matrix) : Model.evaluateMicroMask m = Spec.scoreMicro m := by
+  exact Proofs.Mask.micro_score m
+
+/-- generic: the candidate loop of `find_and_apply_best_mask` (strict comparison, first best wins)
+    returns the least index among the candidates of minimal score (QR) / maximal score (Micro) -/
+def firstBest (isMicro : Bool) (scores : List Nat) : Option Nat :=
+  match scores with
+  | [] => none
+  | _ => some (scores.idxOf (if isMicro then scores.foldl max 0 else scores.foldl min (scores.headD 0)))
+
+/-- **automatic mask**: the pattern returned is the lowest-numbered one among those whose masked
+    symbol has the minimal (Micro: maximal) model score, and the matrix returned is that candidate -/
+theorem auto_is_first_best (m : Model.Matrix) (fm : Model.Matrix) (k : Nat) (bm : Model.Matrix)
+    (hfm : Model.functionMatrix m.size = .ok fm)
+    (h : Model.findAndApplyBestMask m none = .ok (k, bm)) :
+    let isMicro := decide (m.size < 21)
+    let cands := (Model.maskPatterns isMicro).map (fun pat => Model.applyMask m fm pat)
+    let scores := cands.map (fun c => if isMicro then Model.evaluateMicroMask c else Model.evaluateMask c)
+    firstBest isMicro scores = some k ∧ cands[k]? = some bm := by
+  obtain ⟨hne, hk, hc⟩ := Proofs.Mask.auto_first_best m fm k bm hfm h
+  intro isMicro cands scores
+  refine ⟨?_, hc⟩
+  have hfb : ∀ (b : Bool) (l : List Nat), l ≠ [] →
+      firstBest b l = some (l.idxOf (if b then l.foldl max 0 else l.foldl min (l.headD 0))) := by
+    intro b l hl
+    cases l with
+    | nil => exact absurd rfl hl
+    | cons a t => rfl
+  rw [hfb isMicro scores hne, hk]
+
+/-- **requested mask**: exactly that pattern is applied, no evaluation takes place -/
+theorem requested_mask_applied (m fm : Model.Matrix) (p : Nat)
+    (hfm : Model.functionMatrix m.size = .ok fm) (hp : p < (Model.maskPatterns (decide (m.size < 21))).length) :
+    Model.findAndApplyBestMask m (some p)
+      = .ok (p, Model.applyMask m fm ((Model.maskPatterns (decide (m.size < 21))).getD p 0)) := by
+  exact Proofs.Mask.requested m fm p hfm hp
+
+/-- masking twice with the same pattern is the identity (so the reader's unmasking recovers the data) and
+    only modules of the encoding region (function matrix value > 1) are touched -/
+theorem applyMask_involutive_on_bits (m fm : Model.Matrix) (p i j : Nat) (hb : Model.get2 m i j ≤ 1) :
+    Model.get2 (Model.applyMask (Model.applyMask m fm p) fm p) i j = Model.get2 m i j := by
+  exact Proofs.Mask.applyMask_involutive m fm p i j
+
+theorem applyMask_leaves_function_modules (m fm : Model.Matrix) (p i j : Nat) (h : Model.get2 fm i j ≤ 1) :
+    Model.get2 (Model.applyMask m fm p) i j = Model.get2 m i j := by
+  exact Proofs.Mask.applyMask_leaves m fm p i j h
+
 end Props.C06
+
+#print axioms Props.C06.mask_conditions
+#print axioms Props.C06.mask_order
+#print axioms Props.C06.score_eq_iso
+#print axioms Props.C06.micro_score_eq_iso
+#print axioms Props.C06.auto_is_first_best
+#print axioms Props.C06.requested_mask_applied
+#print axioms Props.C06.applyMask_involutive_on_bits
+#print axioms Props.C06.applyMask_leaves_function_modules
